@@ -257,4 +257,21 @@ theorem wSafe_inv : MInv wSafe := by
         simp [wSafe, wcount, tcount, pcount, Pc.claim, hcount, one, h0]
       rw [this]; exact Nat.zero_le _
 
+/-! ## witness 5: a handle overwritten in its register (why `MOwned` needs `¬ ClobberStep`) -/
+
+/-- Thread 0 ran `al,0` (slot 0, register 0) and is at the last step of a second `al,0` (slot 1): the
+    new `CreatedFrame` goes into register 0, which is occupied. -/
+def wClobber : MWorld :=
+  { sys := { data := 20,
+             slots := [{ st := .created, first := 65280, used := 0,
+                         buf := [255, 255, 255, 255, 255, 255, 16, 16, 16, 16, 16, 16, 136, 164, 0, 0, 0, 0, 0, 0] },
+                       { st := .created, first := 65280, used := 0,
+                         buf := [0, 0, 0, 0, 0, 0, 0, 0, 0, 0, 0, 0, 0, 0, 0, 0, 0, 0, 0, 0] }],
+             frameIdx := 2, pduIdx := 0, now := 0, exit := false },
+    threads := [{ prog := [], pc := .alBuf 0 1, regs := [{ reg := 0, slot := 0, kind := .created 0 none }],
+                  outs := ["ok.0"] }] }
+
+#guard (repr (runSched (initWorld 2 20 0 0 [["al,0", "al,0"]]) (List.replicate 11 (Tick.run 0)))).pretty
+    == (repr wClobber).pretty
+
 end Ec.Micro
